@@ -839,8 +839,21 @@ def concat_from_sequence(node: ir.Node, op, state: OptimizerState) -> ReturnValu
     return None
 
 
-@register("SplitToSequence")
-def split_to_sequence(node: ir.Node, op, state: OptimizerState) -> ReturnValue:
+@register("SplitToSequence", version=(13, 17))
+def split_to_sequence_before_opset_18(
+    node: ir.Node, op, state: OptimizerState
+) -> ReturnValue:
+    """As :func:`split_to_sequence`, for the versions of Split without ``num_outputs``.
+
+    (Before opset 13, Split takes the sizes as an attribute: the node is left alone.)
+    """
+    return split_to_sequence(node, op, state, num_outputs_attribute=False)
+
+
+@register("SplitToSequence", version=(18, None))
+def split_to_sequence(
+    node: ir.Node, op, state: OptimizerState, num_outputs_attribute: bool = True
+) -> ReturnValue:
     """Rewriting pattern.
 
     From
@@ -926,7 +939,7 @@ def split_to_sequence(node: ir.Node, op, state: OptimizerState) -> ReturnValue:
             return None
         num_outputs = math.ceil(split_dimension_size / split_size)
         split_outputs = [f"{output.name}_split_{i}" for i in range(num_outputs)]
-        if split_dimension_size % split_size != 0:
+        if split_dimension_size % split_size != 0 or not num_outputs_attribute:
             # Uneven split: the last chunk is smaller. We must pass explicit split
             # sizes to Split, because Split with only num_outputs would do an
             # equal (or near-equal) split ignoring the original chunk size.
